@@ -184,6 +184,65 @@ func c02Depth(p *load.Prog, r *oblig.Run, dec *ssa.Function, header *ssa.BasicBl
 			ob.OK("empty")
 		}
 	}
+	// content: the only thing ever put on the stack is the node of the current line (never a copy of an entry that is
+	// already there - padding the stack with copies makes later lines find the wrong parent by their level)
+	{
+		var parsed ssa.Value
+		if parse := p.Func(load.PkgRoot, "parseLine"); parse != nil {
+			for _, c := range su.CallsTo(dec, parse) {
+				for _, ref := range *c.Referrers() {
+					if ex, ok := ref.(*ssa.Extract); ok && ex.Index == 0 {
+						parsed = ex
+					}
+				}
+			}
+		}
+		isStack := func(v ssa.Value) bool { return nodesT != nil && types.Identical(v.Type(), nodesT.Type()) }
+		bad := ""
+		sites := 0
+		for _, b := range dec.Blocks {
+			for _, ins := range b.Instrs {
+				switch x := ins.(type) {
+				case *ssa.Call:
+					bi, isB := x.Call.Value.(*ssa.Builtin)
+					if !isB || bi.Name() != "append" || len(x.Call.Args) != 2 || !isStack(x.Call.Args[0]) {
+						continue
+					}
+					elems, ok := variadicElems(x.Call.Args[1])
+					if !ok {
+						bad = "an append of a computed list at " + p.Pos(x.Pos())
+						continue
+					}
+					for _, e := range elems {
+						sites++
+						if su.Strip(e) != parsed {
+							bad = "the value appended at " + p.Pos(x.Pos())
+						}
+					}
+				case *ssa.Store:
+					ia, isIA := x.Addr.(*ssa.IndexAddr)
+					if !isIA {
+						continue
+					}
+					if isStack(ia.X) {
+						sites++
+						if su.Strip(x.Val) != parsed {
+							bad = "the value stored at " + p.Pos(x.Pos())
+						}
+					}
+				}
+			}
+		}
+		ob := r.Add("R02.f", "stack content", p.Pos(stackPhi.Pos()), "values put on the stack of open nodes")
+		switch {
+		case parsed == nil || sites == 0:
+			ob.Unknown("cannot find what Decode puts on the stack of open nodes")
+		case bad != "":
+			ob.Fail("something other than the node of the current line is put on the stack of open nodes (" + bad + "): the entry at a level is then not the open node of that level, and a later line at that level (or one below it) is attached to the wrong parent")
+		default:
+			ob.OK(fmt.Sprintf("%d store/append site(s), all of the current line's node", sites))
+		}
+	}
 	n := 0
 	for _, path := range paths {
 		if path[len(path)-1] != header {
